@@ -1,7 +1,7 @@
 (* C06 — property theorems (statements only; proofs in Proofs*.v) *)
 From Coq Require Import NArith List Bool Arith.
 Import ListNotations.
-From LTV.C06 Require Import ParamsGen Model Proofs ProofsInv ProofsRun.
+From LTV.C06 Require Import ParamsGen Model Proofs ProofsInv ProofsRun ProofsOcc ProofsFull ProofsRetry ProofsKs.
 
 Theorem params_ok_now : params_ok = true.
 Proof. exact Proofs.params_ok_now. Qed.
@@ -46,29 +46,69 @@ Theorem keystream_aligned_partial :
 Proof. exact Proofs.keystream_aligned_partial. Qed.
 Print Assumptions keystream_aligned_partial.
 
-(* PARTIAL: index safety of ProtocolBuffer<1254> is proved for EVERY policy, direction, input cell
-   sequence, segmentation and close timing (run = segments fed one after the other, each
-   optionally followed by the peer closing): positions stay within the per-state bounds of InvB
-   (pos + occupancy <= 1254 everywhere), fill_read_buffer never reaches its "Buffer overflow"
-   internal_error, event_read is never entered in an invalid state, and the only Crash the model
-   can still produce is receive_succeeded's "unread data won't fit" with more than 512 unread
-   bytes. MISSING: the inductive bound unread <= 450 (it needs the per-state occupancy bounds and a
-   data-dependent invariant of READ_ENC_KEY; shown here only on the enumerated matrix through
-   negotiation_table / keystream_aligned_partial), and exclusion of the OutOfFuel constructor. *)
-Theorem buffer_safe_partial : forall bfb incoming p segs,
-  safe_out (run bfb (Cont (if (incoming : bool) then init_in p else init_out p) []) segs).
-Proof. exact ProofsRun.buffer_safe_partial. Qed.
-Print Assumptions buffer_safe_partial.
+(* PARTIAL (inductive core of keystream_aligned, for every window, input and read size): with the
+   ghost stream offsets (nread, dstart), KC s says that the byte at stream offset q in the window
+   has been decrypted exactly once with keystream index q - dstart if dstart <= q < dstart + didx
+   and never otherwise.  fill_read_buffer preserves KC, keeps never-decrypted input never-decrypted,
+   and keeps the cipher frontier at the end of the stream, PROVIDED a decrypting read happens with
+   the frontier at the end of what was read so far; EncryptionInfo::decrypt(position + a, n)
+   preserves KC when called at the frontier.  MISSING for the full theorem: the per-state argument
+   that the read state machine only decrypts at the frontier (READ_ENC_SKEY, outgoing
+   READ_ENC_NEGOT / READ_ENC_PAD casework) and the lifting to runs; until then alignment over all
+   pad lengths and segmentations rests on keystream_aligned_partial (enumerated matrix) and on
+   the correspondence runs (every cut 1..19 of the negotiation block, PadB 506..512, byte-wise). *)
+Theorem keystream_fill_aligned_partial : forall size s k eof s1 k1 b,
+  KC s -> fresh k ->
+  (dvalid s = true -> L s < size -> dstart s + didx s = nread s) ->
+  fill size s k eof = FOk s1 k1 b ->
+  KC s1 /\ fresh k1 /\ dvalid s1 = dvalid s /\ dstart s1 = dstart s /\ o0 s1 = o0 s /\
+  (dvalid s = false -> didx s1 = didx s) /\
+  (dvalid s = true -> dstart s + didx s = nread s -> dstart s1 + didx s1 = nread s1) /\
+  (size <= L s -> s1 = s).
+Proof. exact ProofsKs.fill_K. Qed.
+Print Assumptions keystream_fill_aligned_partial.
 
-(* Whatever bytes arrive, a run ends in success, in receive_failed for this handshake (Failed), or
-   is still waiting; the model's transition function has no access to anything but this
-   handshake's own state. The residual Crash is the one of buffer_safe_partial. *)
+Theorem keystream_decrypt_aligned_partial : forall s a n, KC s -> a + n <= L s -> dstart s + didx s = o0 s + a ->
+  KC (dec_range s a n) /\ dstart (dec_range s a n) + didx (dec_range s a n) = o0 s + a + n /\
+  o0 (dec_range s a n) = o0 s.
+Proof. exact ProofsKs.KC_dec_range. Qed.
+Print Assumptions keystream_decrypt_aligned_partial.
+
+(* buffer_safe, in full.  For EVERY policy, direction, input cell sequence, segmentation and close
+   timing (run = segments fed one after the other, each optionally followed by the peer closing):
+   the run never ends in Crash (fill_read_buffer never reaches its "Buffer overflow"
+   internal_error, event_read is never entered in an invalid state, receive_succeeded never finds
+   more than 512 unread bytes) and never runs out of fuel (event_read and the level-triggered
+   pump terminate: measure 2*(occupancy + socket bytes) + rank(state) strictly decreases on every
+   state transition); a still-running handshake satisfies the per-state index bounds InvB
+   (pos + occupancy <= 1254) and occupancy bounds InvL; at success at most 450 bytes are unread.
+   This settles DESIGN.md section 8 "C06/C03 to check by proof": the hand bound 450 is right. *)
+Theorem buffer_safe : forall bfb incoming p segs,
+  run_post (run bfb (Cont (if (incoming : bool) then init_in p else init_out p) []) segs).
+Proof. exact ProofsFull.buffer_safe. Qed.
+Print Assumptions buffer_safe.
+
+Theorem buffer_safe_no_internal_error : forall bfb incoming p segs s,
+  run bfb (Cont (if (incoming : bool) then init_in p else init_out p) []) segs <> Crash s /\
+  run bfb (Cont (if (incoming : bool) then init_in p else init_out p) []) segs <> OutOfFuel.
+Proof. exact ProofsFull.buffer_safe_no_internal_error. Qed.
+Print Assumptions buffer_safe_no_internal_error.
+
+Theorem unread_at_success : forall bfb incoming p segs s k,
+  run bfb (Cont (if (incoming : bool) then init_in p else init_out p) []) segs = Done s k ->
+  length (buf s) <= 450.
+Proof. exact ProofsFull.unread_at_success. Qed.
+Print Assumptions unread_at_success.
+
+(* Whatever bytes arrive and however they are cut, a run ends in success, in receive_failed for
+   this handshake (Failed: destroy_connection of this handshake only; the model's transition
+   function has no access to anything but this handshake's own state), or is still waiting. *)
 Theorem bad_handshake_closes_one : forall bfb incoming p segs,
   match run bfb (Cont (if (incoming : bool) then init_in p else init_out p) []) segs with
-  | Crash s => 512 < L s
-  | _ => True
+  | Cont _ _ | Done _ _ | Failed _ _ _ => True
+  | Crash _ | OutOfFuel => False
   end.
-Proof. exact ProofsRun.bad_handshake_closes_one. Qed.
+Proof. exact ProofsFull.bad_handshake_closes_one. Qed.
 Print Assumptions bad_handshake_closes_one.
 
 (* receive_failed: shape of every retry *)
@@ -79,10 +119,42 @@ Theorem retry_policy_spec : forall p p',
 Proof. exact Proofs.retry_policy_spec. Qed.
 Print Assumptions retry_policy_spec.
 
-(* PARTIAL: for the 15 policies and the two failure points (before / right after the peer's key or
-   handshake part 1 was recognised) an outgoing failure is retried iff the retry flag was set and
-   nothing had been recognised, with the flipped handshake type, the retry is never retried, and the
-   retry policy constructor never throws. *)
+(* retry_rule, for all failure points.  For EVERY policy p without a retry mode set, input,
+   segmentation and close timing: the failing handshake of an outgoing attempt is retried iff it
+   was a first attempt (not retrying), the policy permits the other handshake type (and, for the
+   plaintext retry, a plaintext stream: /repo 3196365) and the peer's key / handshake part 1 had not
+   been recognised (ghost flag recog, set exactly where the code calls set_retry_disabled); the
+   retry has the flipped handshake type, the same stream mode, is marked retrying; a retry is never
+   retried; the retry policy constructor never throws. *)
+Theorem retry_rule : forall bfb p segs s t e,
+  retry_mode p = Allow ->
+  run bfb (Cont (init_out p) []) segs = Failed s t e ->
+  retry_policy false (pol s) =
+    if recog s || retrying p then RNone
+    else if prefer_enc_hs p
+         then (if allow_plain_hs p && allow_plain_stream p then RRetry (mkPolicy Deny (st_mode p) true Allow) else RNone)
+         else (if allow_enc_hs p then RRetry (mkPolicy Require (st_mode p) true Allow) else RNone).
+Proof. exact ProofsRetry.retry_rule. Qed.
+Print Assumptions retry_rule.
+
+Theorem retry_once : forall bfb p segs s t e,
+  retry_mode p = Allow -> retrying p = true ->
+  run bfb (Cont (init_out p) []) segs = Failed s t e -> retry_policy false (pol s) = RNone.
+Proof. exact ProofsRetry.retry_once. Qed.
+Print Assumptions retry_once.
+
+(* positive form of the former retry_internal_error_refuted (fixed by /repo 3196365) *)
+Theorem retry_never_throws : forall bfb p segs s t e,
+  retry_mode p = Allow ->
+  run bfb (Cont (init_out p) []) segs = Failed s t e -> retry_policy false (pol s) <> RThrow.
+Proof. exact ProofsRetry.retry_never_throws. Qed.
+Print Assumptions retry_never_throws.
+
+Theorem retry_policy_incoming : forall p, retry_policy true p = RNone.
+Proof. exact Proofs.retry_policy_incoming. Qed.
+Print Assumptions retry_policy_incoming.
+
+(* finite cross-check of the same rule on the 15 policies x 2 failure points, including the second attempt *)
 Theorem retry_rule_partial : forall p fp, In p all_policies -> In fp [0; 1] -> retry_cell p fp = true.
 Proof. exact Proofs.retry_rule_partial. Qed.
 Print Assumptions retry_rule_partial.
